@@ -13,10 +13,11 @@ echo "== $id-$n: $(python3 -c "import json;print(json.load(open('$meta')).get('s
 echo "   needs: $(python3 -c "import json;print(json.load(open('$meta')).get('needs',''))")"
 echo "   demo_place=$place demo_cmd=$cmd"
 cd $W || exit 3
+[ -f "$O/go.mod" ] || echo "module out" > "$O/go.mod"   # keep OUT/ out of ./...
 git checkout -q -- . ; git clean -fdq -e OUT >/dev/null 2>&1
 demo=$(ls $O/demo$n* 2>/dev/null | head -1)
-put_demo() { if [ -d "$demo" ]; then cp -r "$demo" "$W/$place/"; else cp "$demo" "$W/$place/"; fi; }
-rm_demo() { rm -rf "$W/$place/$(basename $demo)"; }
+put_demo() { if echo "$cmd" | grep -q "cp OUT/\|cp -r OUT/"; then return; fi; if [ -d "$demo" ]; then cp -r "$demo" "$W/$place/"; else cp "$demo" "$W/$place/"; fi; }
+rm_demo() { rm -rf "$W/$place/$(basename $demo)"; ( cd $W && git clean -fdq -e OUT >/dev/null 2>&1 ); }
 # 1. demo passes without the change
 put_demo
 ( cd $W && eval "$cmd" ) >/tmp/ingest.$$.a 2>&1; a=$?
